@@ -195,17 +195,27 @@ func ruleR01_2(w *World, r *Report) {
 			continue
 		}
 		for _, side := range []string{"ExecuteLocal", "ExecuteRemote"} {
-			fd, _ := u.DeclOf(pOrda, dt, side)
-			if fd == nil {
+			fn := u.Fn(pOrda, dt, side)
+			if fn == nil {
 				r.Lost(dt + "." + side)
 				continue
 			}
-			tss := typeSwitchesIn(fd.Body)
-			if len(tss) == 0 {
-				r.Undecided(dt+"."+side, u.Pos(fd.Pos()), "no type switch found")
+			// a type switch and a chain of comma-ok type assertions both compile to TypeAssert
+			// instructions on the operation parameter: one arm per asserted type
+			arms := map[string]*ssa.TypeAssert{}
+			forEachInstr(fn, func(in ssa.Instruction) {
+				ta, ok := in.(*ssa.TypeAssert)
+				if !ok || len(fn.Params) < 2 || stripIface(ta.X) != ssa.Value(fn.Params[1]) && ta.X != ssa.Value(fn.Params[1]) {
+					return
+				}
+				if n := namedOf(ta.AssertedType); n != nil {
+					arms[n.Obj().Name()] = ta
+				}
+			})
+			if len(arms) == 0 {
+				r.Undecided(dt+"."+side, u.Pos(fn.Pos()), "no type dispatch on the operation parameter found")
 				continue
 			}
-			arms := typeSwitchArms(p.TypesInfo, tss[0])
 			want := map[string]bool{}
 			for k := range emitted {
 				want[k] = true
@@ -219,16 +229,23 @@ func ruleR01_2(w *World, r *Report) {
 			}
 			sort.Strings(names)
 			for _, opn := range names {
-				cc := arms[opn]
+				ta := arms[opn]
 				cons := dt + "." + side + "/arm " + opn
-				switch {
-				case cc == nil:
-					r.Bad(cons, u.Pos(fd.Pos()), "operation type is constructed by "+dt+" but has no arm: it would be refused as an illegal operation (silently on the remote side)")
-				case len(cc.Body) == 0:
-					r.Bad(cons, u.Pos(cc.Pos()), "arm is empty")
-				default:
-					r.OK(cons, u.Pos(cc.Pos()), "arm present")
+				if ta == nil {
+					r.Bad(cons, u.Pos(fn.Pos()), "operation type is constructed by "+dt+" but has no arm: it would be refused as an illegal operation (silently on the remote side)")
+					continue
 				}
+				// the arm does something: the asserted value is used
+				used := false
+				for _, ref := range realRefs(ta) {
+					if ex, ok := ref.(*ssa.Extract); ok && ex.Index == 0 && len(realRefs(ex)) > 0 {
+						used = true
+					}
+					if _, ok := ref.(*ssa.Extract); !ok {
+						used = true
+					}
+				}
+				r.Check(used, cons, u.Pos(ta.Pos()), "arm present", "arm is empty")
 			}
 		}
 	}
@@ -279,7 +296,7 @@ func ruleR01_3(w *World, r *Report, listOnly bool) {
 		return
 	}
 	for _, root := range roots {
-		pred := v.reach([]*ssa.Function{root}, func(f *ssa.Function) bool { return f.Name() == "ExecuteLocal" })
+		pred := v.reach([]*ssa.Function{root}, func(f *ssa.Function) bool { return oldFuncName(f) == "ExecuteLocal" })
 		bad := false
 		var fs []*ssa.Function
 		for f := range pred {
@@ -287,7 +304,7 @@ func ruleR01_3(w *World, r *Report, listOnly bool) {
 		}
 		sort.Slice(fs, func(i, j int) bool { return fs[i].String() < fs[j].String() })
 		for _, f := range fs {
-			if f.Name() == "ExecuteLocal" {
+			if oldFuncName(f) == "ExecuteLocal" {
 				continue
 			}
 			le := localEffects(f)
